@@ -7,6 +7,7 @@ import (
 	"encoding/hex"
 	"fmt"
 	"os"
+	"reflect"
 	"sort"
 
 	builder "github.com/acekingke/yaccgo/Builder"
@@ -36,12 +37,8 @@ func cmdEmit() {
 			return
 		}
 		v := wk.VistorNode.(*parser.RootVistor)
-		for _, id := range v.SortedIdsymtabl() {
-			t := 0
-			if id.IDTyp == parser.TERMID {
-				t = 1
-			}
-			fmt.Fprintf(w, "EID %s %d %d\n", h(id.Name), t, id.Value)
+		for _, id := range sortedIdRecs(v) {
+			fmt.Fprintf(w, "EID %s %d %d\n", h(id.name), id.term, id.value)
 		}
 		for _, s := range v.G.Symbols {
 			nt := 0
@@ -94,4 +91,36 @@ func cmdEmit() {
 		emit("god", false, func() map[string]string { return builder.VerifPartsGo(wk) })
 		emit("ts", true, func() map[string]string { return builder.VerifPartsTs(wk) })
 	})
+}
+
+type idRec struct {
+	name  string
+	term  int
+	value int
+}
+
+// sortedIdRecs: the identifier table in the order the emitters walk it.  The accessor is looked up by name so that the
+// harness also builds against a tree that does not have it (then: the terminals of the grammar by name — the emitters of
+// such a tree walk a map, whose order is not defined anyway).
+func sortedIdRecs(v *parser.RootVistor) []idRec {
+	var out []idRec
+	if m := reflect.ValueOf(v).MethodByName("SortedIdsymtabl"); m.IsValid() && m.Type().NumIn() == 0 && m.Type().NumOut() == 1 {
+		l := m.Call(nil)[0]
+		for i := 0; i < l.Len(); i++ {
+			e := reflect.Indirect(l.Index(i))
+			t := 0
+			if int(e.FieldByName("IDTyp").Int()) == int(parser.TERMID) {
+				t = 1
+			}
+			out = append(out, idRec{e.FieldByName("Name").String(), t, int(e.FieldByName("Value").Int())})
+		}
+		return out
+	}
+	for _, sy := range v.G.Symbols {
+		if !sy.IsNonTerminator && sy.Name != "$" {
+			out = append(out, idRec{sy.Name, 1, sy.Value})
+		}
+	}
+	sort.Slice(out, func(i, j int) bool { return out[i].name < out[j].name })
+	return out
 }
